@@ -27,6 +27,8 @@ type sysOp struct {
 	Resources   []json.RawMessage `json:"resources"`
 	Name        string            `json:"name"`
 	Auth        bool              `json:"auth"`
+	Wrapped     bool              `json:"wrapped"`
+	NoWait      bool              `json:"nowait"`
 	ConnectFail int               `json:"connectfail"`
 	Names       []string          `json:"names"`
 	Ms          int64             `json:"ms"`
@@ -69,6 +71,7 @@ type stepObs struct {
 	Policy  interface{} `json:"policy,omitempty"`
 	Note    string      `json:"note,omitempty"`
 	AtMs    int64       `json:"at_ms"`
+	Deferred bool       `json:"deferred"`
 }
 
 type sysObs struct {
@@ -99,6 +102,7 @@ type sysRun struct {
 	markerN  int
 	suites   *suites
 	t0       time.Time
+	blocked  *fakeStream // the stream whose Send is being held
 }
 
 func (r *sysRun) curStream() *fakeStream { return r.ads.stream(-1) }
@@ -110,10 +114,14 @@ func (r *sysRun) flush() error {
 	}
 	r.markerN++
 	tag := fmt.Sprintf("m%d", r.markerN)
-	if !r.m.VerifFlushMarker(tag) {
-		return fmt.Errorf("queue full")
-	}
 	deadline := time.Now().Add(5 * time.Second)
+	for !r.m.VerifFlushMarker(tag) {
+		// the queue is full: the sender is still draining it
+		if time.Now().After(deadline) {
+			return fmt.Errorf("queue stays full")
+		}
+		time.Sleep(200 * time.Microsecond)
+	}
 	for {
 		for i := 0; i < r.ads.numStreams(); i++ {
 			s := r.ads.stream(i)
@@ -400,9 +408,13 @@ func runSys(raw json.RawMessage) (out interface{}, err error) {
 			run.ads.failCreate = op.ConnectFail
 			run.ads.mu.Unlock()
 			if op.Auth {
-				s.recvCh <- recvItem{err: status.Err(codes.Unauthenticated, "rejected")}
+				var aerr error = status.Err(codes.Unauthenticated, "rejected")
+				if op.Wrapped {
+					aerr = fmt.Errorf("transport: %w", aerr)
+				}
+				s.recvCh <- recvItem{err: aerr}
 				ok := false
-				for t := 0; t < 50000 && !ok; t++ {
+				for dl := time.Now().Add(5 * time.Second); !ok && time.Now().Before(dl); {
 					ok = run.m.VerifClosed()
 					if !ok {
 						time.Sleep(100 * time.Microsecond)
@@ -414,7 +426,13 @@ func runSys(raw json.RawMessage) (out interface{}, err error) {
 			} else {
 				wasClosed := run.m.VerifClosed()
 				s.recvCh <- recvItem{err: fmt.Errorf("stream broken")}
-				if !wasClosed {
+				if op.NoWait {
+					// the sender is held in a Send: only wait until the receiver has created the next stream
+					for dl := time.Now().Add(5 * time.Second); run.ads.numStreams() <= nBefore && time.Now().Before(dl); {
+						time.Sleep(100 * time.Microsecond)
+					}
+					time.Sleep(2 * time.Millisecond)
+				} else if !wasClosed {
 					// new stream created, receiver reading it, sender has re-requested every subscribed type
 					ok := false
 					nsub := 0
@@ -423,7 +441,7 @@ func runSys(raw json.RawMessage) (out interface{}, err error) {
 							nsub++
 						}
 					}
-					for t := 0; t < 100000 && !ok; t++ {
+					for dl := time.Now().Add(5 * time.Second); !ok && time.Now().Before(dl); {
 						if run.ads.numStreams() > nBefore {
 							ns := run.curStream()
 							ok = ns.entered() >= 1 && len(ns.sentCopy()) >= nsub
@@ -446,6 +464,58 @@ func runSys(raw json.RawMessage) (out interface{}, err error) {
 				s.sendErrs = 1
 				s.mu.Unlock()
 				run.errArmed = s
+			}
+		case "block_send":
+			if cs := run.curStream(); cs != nil {
+				cs.mu.Lock()
+				cs.sendBlock = make(chan struct{})
+				cs.mu.Unlock()
+				run.blocked = cs
+			}
+		case "unblock_send", "burst_unblock":
+			var burstDone chan struct{}
+			if op.Op == "burst_unblock" {
+				burstDone = make(chan struct{})
+				go func() {
+					defer close(burstDone)
+					for _, n := range op.Names {
+						_, _ = getSafely0(run.m, cancelled, rtNames[op.RT], n)
+					}
+				}()
+				time.Sleep(150 * time.Millisecond) // let the queue fill up behind the held Send
+			}
+			if b := run.blocked; b != nil {
+				b.mu.Lock()
+				ch := b.sendBlock
+				b.sendBlock = nil
+				b.mu.Unlock()
+				close(ch)
+				run.blocked = nil
+			}
+			if burstDone != nil {
+				select {
+				case <-burstDone:
+					st.Lookup = C("LMiss")
+				case <-time.After(10 * time.Second):
+					o.Fatal = fmt.Sprintf("op %d: burst of lookups did not finish after the sender was released", i)
+					o.hung = true
+					return o, nil
+				}
+			}
+			// settle: the sender has switched to the newest stream and re-requested every subscribed type on it
+			nsub := 0
+			for _, k := range rtOrder {
+				if _, sub := run.m.VerifWatched(rtNames[k]); sub {
+					nsub++
+				}
+			}
+			if run.ads.numStreams() > 1 {
+				for dl := time.Now().Add(3 * time.Second); time.Now().Before(dl); {
+					if ns := run.curStream(); len(ns.sentCopy()) >= nsub && ns.entered() >= 1 {
+						break
+					}
+					time.Sleep(200 * time.Microsecond)
+				}
 			}
 		case "backdate":
 			if !run.m.VerifBackdate(rtNames[op.RT], op.Name, time.Duration(op.Ms)*time.Millisecond) {
@@ -478,7 +548,11 @@ func runSys(raw json.RawMessage) (out interface{}, err error) {
 			o.hung = true
 			return o, nil
 		}
-		if err := run.snapshot(&st); err != nil {
+		if run.blocked != nil {
+			st.Deferred = true
+			st.Reqs = run.newReqs()
+			st.State = run.state()
+		} else if err := run.snapshot(&st); err != nil {
 			o.Fatal = fmt.Sprintf("op %d (%s): %v", i, op.Op, err)
 			return o, nil
 		}
